@@ -89,6 +89,22 @@ def structured_tables(rng, n, vi):
     return out
 
 
+def nested_macro_tables(rng, n, vi):
+    """two macro binds, the body of the first containing the key of the second FOLLOWED by more keys (the second expansion must
+    take the place of its key: in front of what is left of the first body), single-key probes for every key of both bodies"""
+    out = []
+    while len(out) < n:
+        k1, k2, kx, ky = rng.sample([A, B, X, 0x63, 0x64, 0x65], 4)
+        m1, m2 = rng.sample([Y, 0x19, 0x14], 2)
+        inner = [kx, ky] if rng.random() < 0.7 else [kx]
+        body1 = rng.choice([[k1, m2, k2], [m2, k2], [k1, m2, k2, m2], [m2, m2, k1]])
+        t = [{"seq": [k], "raw": [k], "cmd": "p%d" % i, "macro": False, "body": []} for i, k in enumerate(sorted({k1, k2, kx, ky}))]
+        t.append({"seq": [m1], "raw": [m1], "cmd": "", "macro": True, "body": body1})
+        t.append({"seq": [m2], "raw": [m2], "cmd": "", "macro": True, "body": inner})
+        out.append(t)
+    return out
+
+
 def alphabet(table):
     al = set()
     for e in table:
@@ -128,6 +144,7 @@ def run(rep, tier, seed):
         tables = gen_tables(rng, ntab if not local else ntab // 3, vi)
         if not local:
             tables += structured_tables(rng, 12 if tier == "quick" else 150, vi)
+            tables += nested_macro_tables(random.Random(seed * 389 + len(km)), 6 if tier == "quick" else 80, vi)
         for table in tables:
             if local:
                 # local table over its own keys, a main table with disjoint first keys, and the key that switches the local keymap on
